@@ -2214,11 +2214,16 @@ void do_resize_cb(struct urcu_work *work)
 		caa_container_of(work, struct resize_work, work);
 	struct cds_lfht *ht = resize_work->ht;
 
-	ht->flavor->register_thread();
+	/*
+	 * Take the resize mutex before registering: a registered QSBR
+	 * thread is online, and blocking on the mutex while online would
+	 * stall the grace periods of the resize that holds it (deadlock).
+	 */
 	mutex_lock(&ht->resize_mutex);
+	ht->flavor->register_thread();
 	_do_cds_lfht_resize(ht);
-	mutex_unlock(&ht->resize_mutex);
 	ht->flavor->unregister_thread();
+	mutex_unlock(&ht->resize_mutex);
 	poison_free(ht->alloc, work);
 }
 
